@@ -10,14 +10,15 @@ import os
 import pathlib
 import shutil
 
+from . import c08_big
 from . import c08_front
 from . import ser_common as sc
 
 LEVEL = "proof"
 MANIFEST_ENTRY = {
     "category": "proof",
-    "text": "Lean 4 theorems over (1) a step-level model of save()'s filesystem protocol (Model/SaveFs.lean: staging next to the target, install, discard on failure) and (2) a branch-by-branch model of save()'s FRONT END (Model/SaveFront.lean: compression-level validation, store inference from the path, '.zip' suffix normalisation, the write-once existence check, the directory-extension check and the unknown-store check, in the order of the code). Proved for every store, number of writes, pre-state and fault position: the target is afterwards unchanged, absent or the complete new object, never partial (no_partial, never_partial); a non-raising call leaves the complete object; a call that raises installs nothing (raise_never_installs); no staging path is ever left behind (staged_gone); no other path changes (others_untouched). Proved for every spelling of the arguments: a call whose RESOLVED target exists raises before any effect for EVERY mode string other than 'o', every store (also 'auto', also unknown ones) and every level, and the filesystem after it is the filesystem before it (front_write_once, saveFull_write_once, write_once_fs_unchanged); exactly which calls get past the front end and which path they name (front_ok_iff, targetOf_cases, front_zip_suffix); save('run', store='zip') never alters the path 'run' (saveFull_stem_untouched); one complete call changes at most its resolved target (saveFull_others_untouched, saveFull_no_partial). Proved over HISTORIES of calls with any faults, rejected calls included: onto one target the target is always its initial content, absent, or the complete object of a call that returned normally (saves_history); onto ANY targets a path that is never a target or staging path is untouched (history_others_untouched) and a path that is absent and never a target stays absent — nothing is ever left behind (history_no_leftover). Tied to the code on every run by injecting an exception (Exception, OSError, KeyboardInterrupt, SystemExit in rotation) at EVERY primitive call of the real save() — zarr root/group/attribute/array/chunk-data writes, dill.dumps/torch.save, os.makedirs, ZipFile open/write/close, os.remove/shutil.rmtree/os.replace of the install — hooked at the LIBRARIES (not at quantem-private helpers), exhaustive in the fault position for each generated graph, both stores, both modes, five call styles (exact, extension-less zip, store='auto', pathlib.Path, relative path) and eleven pre-states (absent, earlier checkpoint, file, directory, zero-byte file, empty directory, directory of zero-length placeholder files, symlink to a sibling file, symlink to a sibling directory, dangling symlink); the recorded primitive trace is executed by the model and outcomes are compared, the order of the store writes is compared with traceSave, the model's own step list with the recorded trace shape; a front-end stream compares every argument spelling x pre-state with `front`; histories (different and re-saved objects, both modes, faults at random primitives, calls rejected by validation) are compared prefix by prefix with runCalls. The property's clauses are evaluated on the real filesystem (hashes of every sibling and of link referents BEFORE load(), listing of the sandbox, load() of the target).",
-    "note": "Measured, not proved: that the recorded primitive trace is what save() does (the step list is recorded from the real code on every run and compared with the model's `steps`), the number of files zarr writes per group/array, and os/shutil/zipfile/zarr semantics of the primitives (remove, rmtree, replace onto file / directory / symlink; os.path.lexists/isdir/islink). Trusted: Lean kernel + standard axioms; faults are exceptions raised at the entry of a primitive (no process kill / power loss / concurrent writers / TOCTOU between the existence check and the install). If AutoSerialize._write_ndarray/_write_bytes are renamed or inlined the check keeps counting every write at the zarr level and only stops telling arrays from byte blobs in the write-order comparison (evidence: hook_notes).",
+    "text": "Lean 4 theorems over (1) a step-level model of save()'s filesystem protocol (Model/SaveFs.lean: staging next to the target, install, discard on failure) and (2) a branch-by-branch model of save()'s FRONT END (Model/SaveFront.lean: compression-level validation, store inference from the path, '.zip' suffix normalisation, the write-once existence check, the directory-extension check and the unknown-store check, in the order of the code). Proved for every store, number of writes, pre-state and fault position: the target is afterwards unchanged, absent or the complete new object, never partial (no_partial, never_partial); a non-raising call leaves the complete object; a call that raises installs nothing (raise_never_installs); no staging path is ever left behind (staged_gone); no other path changes (others_untouched). Proved for every spelling of the arguments: a call whose RESOLVED target exists raises before any effect for EVERY mode string other than 'o', every store (also 'auto', also unknown ones) and every level, and the filesystem after it is the filesystem before it (front_write_once, saveFull_write_once, write_once_fs_unchanged); exactly which calls get past the front end and which path they name (front_ok_iff, targetOf_cases, front_zip_suffix); save('run', store='zip') never alters the path 'run' (saveFull_stem_untouched); one complete call changes at most its resolved target (saveFull_others_untouched, saveFull_no_partial). Proved over HISTORIES of calls with any faults, rejected calls included: onto one target the target is always its initial content, absent, or the complete object of a call that returned normally (saves_history); onto ANY targets a path that is never a target or staging path is untouched (history_others_untouched) and a path that is absent and never a target stays absent — nothing is ever left behind (history_no_leftover). Tied to the code on every run by injecting an exception (Exception, OSError, KeyboardInterrupt, SystemExit in rotation) at EVERY primitive call of the real save() — zarr root/group/attribute/array/chunk-data writes, dill.dumps/torch.save, os.makedirs, ZipFile open/write/close, os.remove/shutil.rmtree/os.replace of the install — hooked at the LIBRARIES (not at quantem-private helpers), exhaustive in the fault position for each generated graph, both stores, both modes, five call styles (exact, extension-less zip, store='auto', pathlib.Path, relative path) and eleven pre-states (absent, earlier checkpoint, file, directory, zero-byte file, empty directory, directory of zero-length placeholder files, symlink to a sibling file, symlink to a sibling directory, dangling symlink); the recorded primitive trace is executed by the model and outcomes are compared, the order of the store writes is compared with traceSave, the model's own step list with the recorded trace shape; a front-end stream compares every argument spelling x pre-state with `front`; histories (different and re-saved objects, both modes, faults at random primitives, calls rejected by validation) are compared prefix by prefix with runCalls. Growth 6 (Props/C08Ext.lean, EXTRA_PROPS): the three models are COMPOSED — for whole histories of complete calls (arguments as given, rejected calls, faults anywhere) onto ANY number of targets alive at once, every path that is not a staging path is afterwards its initial content, absent, or the complete object of a call that named it and returned normally (runFull_history, runFull_never_partial); paths no call names are untouched and absent ones stay absent (runFull_others_untouched, runFull_no_leftover); without mode 'o' an existing path is never modified by any history (runFull_write_once); one call refines a map update (applyFull_refines_spec); the install / discard steps of the protocol model are `_install()` / `_discard()` of the kind-level model for every kind of entry (install_refines_steps, discard_refines_step). Fixed blocks tie these to the code: ONE ndarray above 2**24 bytes (float32 2049x2048, 8x4 chunks) with a fault at every primitive of its save including every array-data write on ANY thread and every chunk-file write at the zarr store level (a failed chunk write keeps failing for that array), both stores / both modes; a graph of 101 attributes with faults around write indices 10, 100, 128 and the last ones; a script of 8 calls onto three targets alive at once (second of two consecutive saves faulted, write-once calls in between) compared prefix by prefix with runFull (driver op fullhistory), every path other than the call's target must keep its bytes. The property's clauses are evaluated on the real filesystem (hashes of every sibling and of link referents BEFORE load(), listing of the sandbox, load() of the target).",
+    "note": "Chunk-level faults are PERSISTENT for the struck array (a transient failure of one chunk file lets zarr's other, un-cancelled chunk tasks re-create the staging directory after _discard() — timing dependent, outside the fault model, reported in reports/growth6-C08.md); KeyboardInterrupt/SystemExit are not injected inside zarr's event loop. Measured, not proved: that the recorded primitive trace is what save() does (the step list is recorded from the real code on every run and compared with the model's `steps`), the number of files zarr writes per group/array, and os/shutil/zipfile/zarr semantics of the primitives (remove, rmtree, replace onto file / directory / symlink; os.path.lexists/isdir/islink). Trusted: Lean kernel + standard axioms; faults are exceptions raised at the entry of a primitive (no process kill / power loss / concurrent writers / TOCTOU between the existence check and the install). If AutoSerialize._write_ndarray/_write_bytes are renamed or inlined the check keeps counting every write at the zarr level and only stops telling arrays from byte blobs in the write-order comparison (evidence: hook_notes).",
     "technique": "Lean 4 proof (induction over step lists and histories, all fault positions; case analysis of the front end) + exhaustive fault-injection correspondence at library-level primitives",
 }
 RULE = ("for each generated object graph x store x mode x pre-state x call style the fault position k is enumerated over the primitive "
@@ -33,6 +34,7 @@ TRUSTED = ["os / shutil / zipfile / zarr filesystem behaviour of the primitives 
 ASSUMPTIONS = ["no process kill, power loss, concurrent writer or TOCTOU race is modelled",
                "a dangling symbolic link at the target counts as an existing target (os.path.lexists), as for O_EXCL creation"]
 EXPLANATION = "see MANIFEST level text"
+EXTRA_PROPS = ["QuantemModel.Props.C08Ext"]   # growth 6: end-to-end theorems over histories of complete calls onto any targets
 
 
 from .c08_hooks import (EXC_CLASSES, Injected, InjectedExit, InjectedInterrupt, InjectedOSError, Recorder,  # noqa: F401
@@ -281,6 +283,11 @@ def run_config(ctx, drv, recipe, old_recipe, store, mode, pre, idx, call="exact"
         fault_list = [None] + sorted(set(range(max(0, n - 4), n)) | ({idx % n} if n else set()))
     elif faults == "stride":
         fault_list = [None] + sorted(set(range(max(0, n - 4), n)) | set(range(idx % 2, n, 2)))
+    elif faults == "thresholds":
+        # many-entry graphs: the positions around the count thresholds (one / two / three digits, 127|128, 255|256),
+        # the first and the last ones, and a coarse stride in between
+        near = {1, 9, 10, 11, 99, 100, 101, 127, 128, 255, 256}
+        fault_list = [None] + sorted((near | set(range(max(0, n - 4), n)) | set(range(idx % 31, n, 31))) & set(range(n)))
     elif faults == "tmpstride":
         # zip store: while the tree is written to the system temp dir nothing next to the target exists yet —
         # every second position of that phase, every position from `ZipFile(staged, "w")` on
@@ -658,6 +665,11 @@ def run(ctx):
                     run_natural_failure(ctx, drv, recipe, store, rng.choice(["absent", "earlier"]), idx)
                     idx += 1
         history_stream(ctx, drv, ctx.n(10, 100))
+        # growth 6: fixed blocks (independent of the seed) — large array / chunk-level faults, many-entry graphs,
+        # several targets alive at once
+        c08_big.big_array_stream(ctx, drv)
+        c08_big.many_entries_stream(ctx, drv)
+        c08_big.two_targets_stream(ctx, drv)
         c08_front.primitives_stream(ctx, drv)
         c08_front.front_stream(ctx, drv, ctx.n(120, 1000))
         ctx.exhaustive = False
@@ -677,6 +689,10 @@ def replay(ctx, rep):
     try:
         if case.get("history"):
             history_stream(ctx, drv, ctx.n(10, 100))
+        elif "big" in case:
+            c08_big.big_array_stream(ctx, drv, only=case["big"])
+        elif case.get("two_targets"):
+            c08_big.two_targets_stream(ctx, drv)
         elif case.get("front"):
             c08_front.front_case(ctx, drv, case, 0)
         elif "unpicklable_at" in case:
